@@ -172,7 +172,7 @@ def r3_std_constants(ctx, nf) -> None:
         c = m.classes.get(cname)
         if c is None:
             ctx.broken(f"anchor vanished: {mn}.{cname}")
-        if c.methods.get("to_value") is None:
+        if c.find_method("to_value")[1] is None:
             ctx.broken(f"anchor vanished: {mn}.{cname}.to_value")
         tv = ctx.cfn(f"{mn}.{cname}.to_value")      # canonical: locals substituted, arguments in the callee's positional layout
         calls = [x for x in calls_in(tv) if u(x.func) in ("val.Extension", "Extension")]
